@@ -394,15 +394,30 @@ def check_type_guards(ctx, rule, fi, source_texts, what):
     n_uses = 0
     n_sources = 0
     for src in source_texts:
-        # alias set: names assigned from an expression with this text
-        aliases = {src}
+        # a source is an expression text, ("call", callee name) or ("values-of", text of a mapping iterated with .items())
+        def is_source(e, src=src):
+            if isinstance(src, str):
+                return norm(e) == src
+            if src[0] == "call":
+                return isinstance(e, ast.Call) and (
+                    (isinstance(e.func, ast.Attribute) and e.func.attr == src[1]) or
+                    (isinstance(e.func, ast.Name) and e.func.id == src[1]))
+            return False
+        aliases = {src} if isinstance(src, str) else set()
         alias_defs = {}
         for n in walk_no_nested(fi.node):
-            if isinstance(n, ast.Assign) and norm(n.value) == src:
+            if isinstance(n, ast.Assign) and is_source(n.value):
                 for t in n.targets:
                     if isinstance(t, ast.Name):
                         aliases.add(t.id)
                         alias_defs[t.id] = n
+            if not isinstance(src, str) and isinstance(n, ast.expr) and is_source(n):
+                aliases.add(norm(n))
+            if not isinstance(src, str) and src[0] == "values-of" and isinstance(n, ast.For) and \
+                    isinstance(n.iter, ast.Call) and isinstance(n.iter.func, ast.Attribute) and n.iter.func.attr == "items" \
+                    and norm(n.iter.func.value) == src[1] and isinstance(n.target, ast.Tuple) and len(n.target.elts) == 2 \
+                    and isinstance(n.target.elts[1], ast.Name):
+                aliases.add(n.target.elts[1].id)
         found = False
         for n in walk_no_nested(fi.node):
             if not isinstance(n, ast.expr) or norm(n) not in aliases:
